@@ -303,3 +303,54 @@ func nilLookupFound(fct core.Fact, isKey func(ssa.Value) bool) bool {
 	}
 	return false
 }
+
+// electionFieldRoles: the fields of redisElection by role, read from the one place that builds an election,
+// (*redisCluster).NewElection(ctx, electionKey, id): the lease key is the field stored from the first string
+// parameter, the holder's id the field stored from the second, the ttl the field stored from a field of the
+// cluster object (R15.9 / R15.12 say what that field holds). Each role must be filled exactly once.
+func electionFieldRoles(w *core.World, r *core.Report) (key, id, ttl string, ok bool) {
+	f := w.Func("(*pkg/cluster.redisCluster).NewElection")
+	if f == nil || len(f.Params) == 0 {
+		return "", "", "", false
+	}
+	var strParams []*ssa.Parameter
+	for _, p := range f.Params[1:] {
+		if b, isB := p.Type().Underlying().(*types.Basic); isB && b.Kind() == types.String {
+			strParams = append(strParams, p)
+		}
+	}
+	if len(strParams) != 2 {
+		return "", "", "", false
+	}
+	n := map[string]int{}
+	for _, in := range core.Instrs(f) {
+		st, isSt := in.(*ssa.Store)
+		if !isSt {
+			continue
+		}
+		fa, isFa := st.Addr.(*ssa.FieldAddr)
+		if !isFa || !strings.HasSuffix(core.TypeName(fa.X.Type()), "redisElection") {
+			continue
+		}
+		v := core.Unwrap(st.Val)
+		switch {
+		case v == ssa.Value(strParams[0]):
+			key = core.FieldName(fa)
+			n["key"]++
+		case v == ssa.Value(strParams[1]):
+			id = core.FieldName(fa)
+			n["id"]++
+		default:
+			if ld, isLd := v.(*ssa.UnOp); isLd && ld.Op == token.MUL {
+				if src, isF := ld.X.(*ssa.FieldAddr); isF && src.X == ssa.Value(f.Params[0]) {
+					if b, isB := ld.Type().Underlying().(*types.Basic); isB && b.Info()&types.IsInteger != 0 {
+						ttl = core.FieldName(fa)
+						n["ttl"]++
+					}
+				}
+			}
+		}
+	}
+	ok = n["key"] == 1 && n["id"] == 1 && n["ttl"] == 1 && key != id && id != ttl && key != ttl
+	return
+}
